@@ -29,25 +29,7 @@ JVM = {"JAVA_TOOL_OPTIONS": "-Xss16m"}
 MAG_OPS = ["add", "subtract", "remainder", "fmod", "maximum", "minimum", "fmax", "fmin", "hypot", "copysign", "less", "less_equal", "greater", "greater_equal", "equal", "not_equal", "floor_divide", "divmod_r"]
 
 
-def _same_class(tab, i, j):
-    from fractions import Fraction
-
-    def dim_scale(k):
-        u = tab["cat"][k - 1]
-        d = [sum(e for e, g in zip(u, tab["grp"]) if g == gg) for gg in (1, 2, 3, 4)]
-        sc = Fraction(1)
-        for e, v in zip(u, tab["pv"]):
-            if e:
-                for p, x in zip((2, 3, 5, 127), v):
-                    sc *= Fraction(p) ** (x * e // 6)
-        return d, sc
-
-    (di, si), (dj, sj) = dim_scale(i), dim_scale(j)
-    r = si / sj
-    return di == dj and r.numerator <= 2048 and r.denominator <= 2048
-
-
-def _cfg(ck, name, maxlen, exportlen, leaves, yshapes, valsets, reexall, ops=None, pairs=(), xshapes=("v",)):
+def _cfg(ck, name, maxlen, exportlen, leaves, yshapes, valsets, reexall, ops=None, pairs=(), xshapes=("v",), classpairs=False):
     ops = ops or ALL_OPS
     txt = "CONSTANTS\n"
     txt += f"  MaxLen = {maxlen}\n  ExportLen = {exportlen}\n"
@@ -58,6 +40,7 @@ def _cfg(ck, name, maxlen, exportlen, leaves, yshapes, valsets, reexall, ops=Non
     txt += f"  ReexAll = {'TRUE' if reexall else 'FALSE'}\n"
     txt += "  OpSet = {" + ", ".join(f'"{o}"' for o in ops) + "}\n"
     txt += "  InitPairs = {" + ", ".join(str(100 * a + b) for a, b in pairs) + "}\n"
+    txt += f"  ClassPairs = {'TRUE' if classpairs else 'FALSE'}\n"
     txt += "INIT Init\nNEXT Next\nINVARIANT Export\nCHECK_DEADLOCK FALSE\n"
     open(ck.spec + f"/{name}.cfg", "w").write(txt)
     return name
@@ -117,18 +100,31 @@ def _validate(ck, cases, obs, label, st):
                 order.append(key)
             distinct[key][1].append((ci, e))
             st["events"] += 1
-    CH = 30000
-    fails = {}  # (ci, variant) -> list of failures
-    for off in range(0, len(order), CH):
-        keys = order[off : off + CH]
+    import concurrent.futures as cf
+
+    from common import NCPU
+
+    # events are independent: chunks are judged by concurrent TLC runs (results are consumed in chunk order)
+    nchunk = max(1, min(4, NCPU // 2, (len(order) + 2999) // 3000)) if len(order) <= 120000 else (len(order) + 29999) // 30000
+    size = (len(order) + nchunk - 1) // nchunk
+    chunks = [order[off : off + size] for off in range(0, len(order), size)] if order else []
+
+    def judge(arg):
+        n, keys = arg
         part = [distinct[k][0] for k in keys]
-        path = ck.write_json(f"events_{label}_{off}.json", part)
-        res = ck.tlc("Trace_C04", env={"EVENTS": path, **JVM}, coverage=False, label=f"trace validation {label} [{off}:{off + len(part)}]", timeout=3000)
+        path = ck.write_json(f"events_{label}_{n}.json", part)
+        res = ck.tlc("Trace_C04", env={"EVENTS": path, **JVM}, workers=max(1, NCPU // max(1, min(nchunk, 4))), coverage=False, label=f"trace validation {label} chunk {n} ({len(part)} events)", timeout=3000)
         nb = (len(part) + 99) // 100
         if res.distinct != 1 + nb + len(part):
             raise MachineryFailure(f"trace validation consumed {res.distinct} states, expected {1 + nb + len(part)}")
-        st["distinct_events"] += len(part)
-        for r in res.by_tag("V"):
+        return res
+
+    with cf.ThreadPoolExecutor(max_workers=min(4, max(1, len(chunks)))) as ex:
+        judged = list(ex.map(judge, enumerate(chunks)))
+    fails = {}  # (ci, variant) -> list of failures
+    for keys, res in zip(chunks, judged):
+        st["distinct_events"] += len(keys)
+        for r in sorted(res.by_tag("V"), key=lambda r: r["idx"]):
             core, origins = distinct[keys[r["idx"] - 1]]
             if r["p"] == "outside":
                 st["outside"] += len(origins)
@@ -145,7 +141,7 @@ def _validate(ck, cases, obs, label, st):
                 continue
             for ci, e in origins:
                 fails.setdefault((ci, e["run"], e["variant"]), []).append((e["step"], r, core, e))
-        for r in res.by_tag("X"):
+        for r in sorted(res.by_tag("X"), key=lambda r: r["idx"]):
             core, origins = distinct[keys[r["idx"] - 1]]
             if r["r"] == "undecided":
                 st["undecided"]["reex"] = st["undecided"].get("reex", 0) + len(origins)
@@ -190,7 +186,7 @@ def _replay_validate(ck, cases, label, st):
 def run(ck):
     ck.level = "model_checking"
     ck.assumptions += [
-        "alphabet: 28 atomic units (power-of-two units in a custom registry incl. 2^-60, 2^-55, 2^70, 2^75: exact float arithmetic; km cm ft min percent degree arcmin radian + a custom 15-degree unit; magnitude classes fm pm fs ps Zm Ym and eV keV MeV carried relative to eV), 37 leaf units incl. compounds; two leaves (length-2 array; length-2 array or scalar); values from 3 small sets",
+        "alphabet: 31 atomic units (power-of-two units in a custom registry incl. 2^-60, 2^-55, 2^70, 2^75 and a compound velocity atom: exact float arithmetic; km cm ft min percent degree arcmin radian + a custom 15-degree unit; lat/lon with their zero points (trig only); magnitude classes fm pm fs ps Zm Ym and eV keV MeV carried relative to eV), 46 leaf units incl. compounds and half-integer powers; two leaves (length-2 array; length-2 array or scalar); values from 3 small sets",
         "TLC 32-bit integers: scales are exponent vectors over the primes 2,3,5,127; value arithmetic is checked, steps whose exact evaluation would leave the range are not generated (trace side: undecided, counted)",
         "floats are matched to the rationals the specification expects: exactly on power-of-two units, rtol 1e-12 (+1e-12 of the operand magnitude for sums, differences, dot, reductions, trig and the remainders - modulus-aware) otherwise; discontinuous operations (floor_divide, mod, fmod, divmod, comparisons, sign) are judged only on exact operands or away from the jump",
         "known findings are matched on (clause, operation, method, operand-unit relation, agreement with the transcription)",
@@ -212,69 +208,78 @@ def run(ck):
         _replay_validate(ck, [case], "replay", st)
         return
 
-    dy = [1, 2, 3, 4, 5, 6, 7]
-    batches = []
-    # length 1: every operation x form on every pair of leaf units
+    import concurrent.futures as cf
+
+    from common import NCPU
+
+    PART_OPS = ["multiply", "divide", "floor_divide", "dot"]
     leaves1 = ck.q([1, 2, 4, 6, 12, 18, 20], [1, 2, 3, 4, 5, 6, 7, 8, 12, 13, 14, 15, 16, 17, 18, 19, 20, 21])
-    _cfg(ck, "MC_C04_1", 1, 1, leaves1, ck.q(["v"], ["v", "s"]), ck.q([1], [2]), False)
-    res = ck.tlc("MC_C04", env=JVM, cfg="MC_C04_1", label="programs of length 1 (exhaustive)", coverage=False, timeout=3000)
-    st["table"] = res.by_tag("TABLE")[0]
-    cases = _cases(res)
-    if len(cases) < 500:
-        raise MachineryFailure("too few cases exported")
-    mid = cases[len(cases) // 2]
-    ck.sample({"program": mid["steps"], "leaf_units_A": [_ustr(st["table"]["names"], r["u"]) for r in mid["A"][:2]], "leaf_units_B": [_ustr(st["table"]["names"], r["u"]) for r in mid["B"][:2]]})
-    batches.append(("len1", cases))
-    # length 1 on the exact units with the equality / exact-multiple value set and every re-expression
-    _cfg(ck, "MC_C04_1e", 1, 1, ck.q([1, 2], [1, 2, 3, 4, 6]), ["v"], [3, 4], ck.q(False, True))
-    res = ck.tlc("MC_C04", env=JVM, cfg="MC_C04_1e", label="length 1, power-of-two units, equal / exact-multiple / Pythagorean values", coverage=False, timeout=3000)
-    batches.append(("len1e", _cases(res)))
-    # length 1, both leaves scalar quantities (0-d results)
-    _cfg(ck, "MC_C04_1s", 1, 1, ck.q([1, 2, 12], [1, 2, 4, 6, 8, 12, 13, 16, 18, 20]), ["s"], [1], False, xshapes=["s"])
-    res = ck.tlc("MC_C04", env=JVM, cfg="MC_C04_1s", label="length 1, scalar leaves", coverage=False, timeout=3000)
-    batches.append(("len1s", _cases(res)))
-    # magnitude classes: leaves (and their re-expressions) whose SI scales are both tiny (2^-60, 2^-55; fm/pm; fs/ps;
-    # eV/keV/MeV) or both huge (2^70, 2^75; Zm/Ym): every operation that must bring operand 1 to operand 0's unit
-    mag = list(range(25, 38))
-    # leaf pairs of one scale class (commensurable, scale ratio a small rational - the relation MC_C04!Reex)
-    magpairs = [(i, j) for i in mag for j in mag if _same_class(st["table"], i, j)]
-    if ck.tier == "thorough":
-        # plus pairs across classes for the multiplicative operations (tiny x huge, tiny x relative, real x power-of-two)
-        magpairs += [(25, 27), (27, 25), (29, 33), (33, 30), (35, 25), (31, 27), (26, 36), (28, 32)]
-    _cfg(ck, "MC_C04_1m", 1, 1, mag, ["v"], ck.q([1, 4], [1, 2, 4]), ck.q(False, True), MAG_OPS if ck.tier == "quick" else MAG_OPS + ["multiply", "divide", "sqrt", "square", "dot", "negative", "absolute"], magpairs)
-    res = ck.tlc("MC_C04", env=JVM, cfg="MC_C04_1m", label="length 1, magnitude classes (tiny / huge scales)", coverage=False, timeout=3000)
-    magcases = _cases(res)
-    if len(magcases) < 200:
-        raise MachineryFailure("too few magnitude-class cases exported")
-    batches.append(("len1m", magcases))
-    # length 2 (exhaustive chains) on a smaller alphabet: compound and cancelled units feed the second step
     leaves2 = ck.q([1, 2], [1, 2, 6])
-    ops2 = ck.q(["add", "multiply", "divide", "floor_divide", "remainder", "sqrt", "power", "dot", "less"], ALL_OPS)
-    _cfg(ck, "MC_C04_2", 2, 2, leaves2, ["v"], [1], False, ops2, ck.q([(1, 2)], [(1, 2), (2, 1), (2, 6), (1, 1)]))
-    res = ck.tlc("MC_C04", env=JVM, cfg="MC_C04_2", label="programs of length 2 (exhaustive)", coverage=False, timeout=6000)
-    batches.append(("len2", _cases(res)))
-    ck.cov["exhaustive"] = True
-    ck.cov["bound"] = {"len1_leaf_units": len(leaves1), "len2_leaf_units": len(leaves2), "len2_ops": len(ops2)}
-    # beyond the bound: simulated longer programs
-    n_sim = ck.q(10, 60)
+    ops2 = ck.q(["add", "multiply", "divide", "floor_divide", "remainder", "sqrt", "power", "dot"], ALL_OPS)
+    mag = list(range(25, 38))
+    n_sim = ck.q(8, 60)
     depth = ck.q(4, 6)
-    _cfg(ck, "MC_C04_s", depth, depth, ck.q([1, 2, 3, 4, 5, 6, 8, 12], list(range(1, 25))), ["v", "s"], [1, 2, 3], False)
-    res = ck.tlc("MC_C04", env=JVM, cfg="MC_C04_s", workers=1, simulate=n_sim, depth=depth + 1, label=f"simulation, programs of length {depth}", timeout=3000)
-    sims = _cases(res)
-    # the simulator evaluates the exporting invariant on every successor of the states it visits: programs come in
-    # families sharing all but the last step; keep a seeded sample of each family
-    rnd = random.Random(ck.seed)
-    fam = {}
-    for c in sims:
-        fam.setdefault(json.dumps([c["cfg"], c["steps"][:-1]], sort_keys=True), []).append(c)
-    sims = [c for k in sorted(fam) for c in rnd.sample(fam[k], min(40, len(fam[k])))]
+    # (key, label, cfg arguments, simulate?)  - independent TLC instances, run concurrently
+    inst = [
+        # length 1: every operation x form on every pair of leaf units
+        ("len1", "programs of length 1 (exhaustive)", dict(maxlen=1, exportlen=1, leaves=leaves1, yshapes=ck.q(["v"], ["v", "s"]), valsets=ck.q([1], [2]), reexall=False), False),
+        # length 1 on the exact units with the equality / exact-multiple / Pythagorean value sets
+        ("len1e", "length 1, power-of-two units, equal / exact-multiple / Pythagorean values", dict(maxlen=1, exportlen=1, leaves=ck.q([1, 2], [1, 2, 3, 4, 6]), yshapes=["v"], valsets=[3, 4], reexall=ck.q(False, True)), False),
+        # length 1, both leaves scalar quantities (0-d results)
+        ("len1s", "length 1, scalar leaves", dict(maxlen=1, exportlen=1, leaves=ck.q([1, 2, 12], [1, 2, 4, 6, 8, 12, 13, 16, 18, 20]), yshapes=["s"], valsets=[1], reexall=False, xshapes=["s"]), False),
+        # magnitude classes: leaves (and re-expressions) whose SI scales are both tiny or both huge; leaf pairs of one scale
+        # class (MC_C04!Reex), thorough: plus pairs across classes for the multiplicative operations
+        ("len1m", "length 1, magnitude classes (tiny / huge scales)", dict(maxlen=1, exportlen=1, leaves=mag, yshapes=["v"], valsets=ck.q([1, 4], [1, 2, 4]), reexall=ck.q(False, True), ops=MAG_OPS if ck.tier == "quick" else MAG_OPS + ["multiply", "divide", "sqrt", "square", "dot", "negative", "absolute"], pairs=ck.q([], [(25, 27), (27, 25), (29, 33), (33, 30), (35, 25), (31, 27), (26, 36), (28, 32)]), classpairs=True), False),
+        # angle units with a zero point (lat, lon) against degree / radian / the 15-degree unit: trig of the same angle
+        ("len1o", "length 1, angle units with a zero point (trig)", dict(maxlen=1, exportlen=1, leaves=[18, 19, 20, 38, 39], yshapes=["v"], valsets=[1, 2], reexall=ck.q(False, True), ops=["sin", "cos", "tan"]), False),
+        # units whose quotient / product cancels only partly pair by pair (half-integer powers, a compound atom)
+        ("len1p", "length 1, partly cancellable unit quotients", dict(maxlen=1, exportlen=1, leaves=[8, 40, 41, 42, 43, 44, 45, 46], yshapes=ck.q(["v"], ["v", "s"]), valsets=ck.q([1], [1, 2]), reexall=False, ops=PART_OPS, pairs=[(40, 41), (41, 40), (40, 42), (42, 40), (41, 42), (40, 40), (45, 46), (46, 45), (44, 8), (8, 44), (45, 8), (46, 44), (40, 43)]), False),
+        # length 2 (exhaustive chains) on a smaller alphabet: compound and cancelled units feed the second step
+        ("len2", "programs of length 2 (exhaustive)", dict(maxlen=2, exportlen=2, leaves=leaves2, yshapes=["v"], valsets=[1], reexall=False, ops=ops2, pairs=ck.q([(1, 2)], [(1, 2), (2, 1), (2, 6), (1, 1)])), False),
+        # beyond the bound: simulated longer programs
+        ("sim", f"simulation, programs of length {depth}", dict(maxlen=depth, exportlen=depth, leaves=ck.q([1, 2, 3, 4, 5, 6, 8, 12], list(range(1, 25))), yshapes=["v", "s"], valsets=[1, 2, 3], reexall=False), True),
+    ]
+    per = max(1, (NCPU + 2) // 3)
+
+    def gen(item):
+        key, label, args, simulate = item
+        a = dict(args)
+        _cfg(ck, "MC_C04_" + key, a.pop("maxlen"), a.pop("exportlen"), a.pop("leaves"), a.pop("yshapes"), a.pop("valsets"), a.pop("reexall"), **a)
+        if simulate:
+            return ck.tlc("MC_C04", env=JVM, cfg="MC_C04_" + key, workers=1, simulate=n_sim, depth=depth + 1, label=label, timeout=3000)
+        return ck.tlc("MC_C04", env=JVM, cfg="MC_C04_" + key, workers=per, label=label, coverage=False, timeout=6000)
+
+    with cf.ThreadPoolExecutor(max_workers=len(inst)) as ex:
+        results = list(ex.map(gen, inst))
+    st["table"] = results[0].by_tag("TABLE")[0]
+    batches = []
+    for (key, label, args, simulate), res in zip(inst, results):
+        cases = _cases(res)
+        if simulate:
+            # the simulator evaluates the exporting invariant on every successor of the states it visits: programs come
+            # in families sharing all but the last step; keep a seeded sample of each family
+            rnd = random.Random(ck.seed)
+            fam = {}
+            for c in cases:
+                fam.setdefault(json.dumps([c["cfg"], c["steps"][:-1]], sort_keys=True), []).append(c)
+            cases = [c for k in sorted(fam) for c in rnd.sample(fam[k], min(40, len(fam[k])))]
+        minimum = {"len1": 500, "len1m": 200, "len1o": 20, "len1p": 50}.get(key, 0)
+        if len(cases) < minimum:
+            raise MachineryFailure(f"too few cases exported by instance {key}: {len(cases)}")
+        batches.append((key, cases))
+    bykey = dict(batches)
+    mid = bykey["len1"][len(bykey["len1"]) // 2]
+    ck.sample({"program": mid["steps"], "leaf_units_A": [_ustr(st["table"]["names"], r["u"]) for r in mid["A"][:2]], "leaf_units_B": [_ustr(st["table"]["names"], r["u"]) for r in mid["B"][:2]]})
+    sims = bykey["sim"]
     if sims:
         ck.sample({"simulated_program": sims[0]["steps"]})
-    batches.append(("sim", sims))
+    ck.cov["exhaustive"] = True
+    ck.cov["bound"] = {"len1_leaf_units": len(leaves1), "len2_leaf_units": len(leaves2), "len2_ops": len(ops2)}
+    ck.cov["cases_by_instance"] = {k: len(v) for k, v in batches}
     allcases = [c for _, cs in batches for c in cs]
     _replay_validate(ck, allcases, "all", st)
-    n1 = len(batches[0][1]) + len(batches[1][1]) + len(batches[2][1]) + len(batches[3][1])
-    n2 = len(batches[4][1])
+    n2 = len(bykey["len2"])
+    n1 = len(allcases) - n2 - len(sims)
 
     ck.cov["evaluations"] = st["events"]
     ck.cov["distinct_nontrivial"] = st["distinct_events"]
